@@ -4,10 +4,7 @@ import json, os, sys, importlib
 V = os.path.dirname(os.path.dirname(os.path.abspath(__file__)))
 sys.path.insert(0, V)
 ALL = ['C%02d' % i for i in range(1, 21)]
-NOT_APPLICABLE = {
-    'C18': 'quantifies over permutations/histories of a greedy cycle reconstruction (which triangle attaches next, that one always exists): '
-           'a property of reachable states, not of code shape; deciding it needs enumeration or model checking, a different family (DESIGN §8)',
-}
+NOT_APPLICABLE = {}
 PENDING = 'check not built yet in this round (DESIGN §6 describes the planned static rules); not claimed until it exists'
 checks, na = [], []
 for pid in ALL:
